@@ -8,6 +8,7 @@ pub mod c03;
 pub mod c04;
 pub mod c05;
 pub mod c06;
+pub mod c07;
 pub mod c11;
 
 pub fn threads() -> usize {
@@ -25,6 +26,7 @@ pub fn dispatch(id: &str, tier: Tier, replay: Option<Value>, _rest: &[String]) -
         "C04" => c04::run(tier, replay),
         "C05" => c05::run(tier, replay),
         "C06" => c06::run(tier, replay),
+        "C07" => c07::run(tier, replay),
         "C11" => c11::run(tier, replay),
         _ => {
             eprintln!("unknown property {id}");
